@@ -291,6 +291,17 @@ static Family retry_family(const std::string &tier)
     e.preamble      = learned(0);
     f.cfgs.push_back(e);
   }
+  {
+    // rarely combined flags: truncation ignored (no UDP->TCP switch on TC) together with EDNS cookies, whose BADCOOKIE
+    // re-sends are bounded only by the forced switch to TCP; and error replies passed through
+    Cfg c = cfg("srv2-tries2-edns-igntc", 2, 2, ARES_FLAG_EDNS | ARES_FLAG_IGNTC);
+    f.cfgs.push_back(c);
+    Cfg d      = cfg("srv1-tries1-edns-igntc-from-two-badcookie-resends", 1, 1, ARES_FLAG_EDNS | ARES_FLAG_IGNTC);
+    d.preamble = { { EV_REQ, 0, 0 }, { EV_REPLY, 0, RK_BADCOOKIE }, { EV_IO, 0, 0 }, { EV_REPLY, 1, RK_BADCOOKIE }, { EV_IO, 0, 0 } };
+    f.cfgs.push_back(d);
+    Cfg e = cfg("srv2-tries1-nocheckresp-igntc", 2, 1, ARES_FLAG_NOCHECKRESP | ARES_FLAG_IGNTC);
+    f.cfgs.push_back(e);
+  }
   f.reqs     = life_reqs();
   f.req_menu = { 0, 18 };
   f.replies  = { RK_SERVFAIL, RK_REFUSED, RK_NOTIMP, RK_FORMERR_NOOPT, RK_TC, RK_BADCOOKIE, RK_DATA };
@@ -373,11 +384,23 @@ static Family adversary_family(const std::string &tier)
     c.preamble       = { { EV_REQ, 0, 0 }, { EV_REPLY, 0, RK_CK_VALID }, { EV_IO, 0, 0 }, { EV_SRCADDR, 1, 0 } };
     f.cfgs.push_back(c);
   }
+  {
+    // truncated UDP answers are delivered as they are (IGNTC): truncation exempts a packet from nothing
+    Cfg c            = cfg("1srv-edns-igntc-from-proven", 1, 2, ARES_FLAG_EDNS | ARES_FLAG_IGNTC);
+    c.qcache_max_ttl = 3600;
+    c.preamble       = { { EV_REQ, 0, 0 }, { EV_REPLY, 0, RK_CK_VALID }, { EV_IO, 0, 0 } };
+    f.cfgs.push_back(c);
+  }
+  {
+    Cfg c            = cfg("2srv-0x20-igntc-nocheckresp", 2, 2, ARES_FLAG_DNS0x20 | ARES_FLAG_IGNTC | ARES_FLAG_NOCHECKRESP);
+    c.qcache_max_ttl = 3600;
+    f.cfgs.push_back(c);
+  }
   f.reqs       = life_reqs();
   f.req_menu   = { 0, 18 };
   f.req_repeat = true;
   f.replies    = { RK_DATA, RK_TC, RK_SERVFAIL, RK_CK_VALID };
-  f.forges     = { FG_WRONGID, FG_WRONGNAME, FG_WRONGTYPE, FG_WRONGCLASS, FG_CASEFLIP, FG_WRONGSRC, FG_OTHERSOCK, FG_NOCOOKIE, FG_BADCLIENTCOOKIE, FG_WRONGSRC_FRAMED };
+  f.forges     = { FG_WRONGID, FG_WRONGNAME, FG_WRONGTYPE, FG_WRONGCLASS, FG_CASEFLIP, FG_WRONGSRC, FG_OTHERSOCK, FG_NOCOOKIE, FG_BADCLIENTCOOKIE, FG_WRONGSRC_FRAMED, FG_NOCOOKIE_TC };
   f.evmask     = EVBIT(EV_REQ) | EVBIT(EV_REPLY) | EVBIT(EV_FORGE) | EVBIT(EV_IO) | EVBIT(EV_TIMER);
   f.max_req    = 2;
   f.max_forge  = tier == "quick" ? 1 : 2;
@@ -529,6 +552,15 @@ static Family failover_family(const std::string &tier)
     d.preamble     = { { EV_REQ, 0, 0 }, { EV_TIMER, 0, 0 } };
     f.cfgs.push_back(d);
   }
+  {
+    // TCP with the deferred-write notification: the frames are flushed by ares_process_pending_write(); a send failure
+    // there is a failure of that server like any other
+    Cfg c              = cfg("srv2-usevc-stayopen-pendingwrite-norotate-chance0", 2, 2, ARES_FLAG_USEVC | ARES_FLAG_STAYOPEN);
+    c.retry_chance     = 0;
+    c.auto_io          = true;
+    c.pending_write_cb = true;
+    f.cfgs.push_back(c);
+  }
   // selection policy is the subject here, not I/O timing: descriptors are serviced after every event so that a frame
   // reaches the wire in the event that chose its server
   for (auto &c : f.cfgs) c.eager_io = true;
@@ -540,7 +572,7 @@ static Family failover_family(const std::string &tier)
   f.faults     = { FS_SEND_REFUSED, FS_SEND_ENOBUFS, FS_CONNECT, FS_RECV_RESET };
   f.setservers = { 2, 3 };
   f.advances   = { 6000 };
-  f.evmask     = EVBIT(EV_REQ) | EVBIT(EV_REPLY) | EVBIT(EV_TIMER) | EVBIT(EV_FAULT) | EVBIT(EV_SETSERVERS) | EVBIT(EV_ADVANCE) | EVBIT(EV_IO) | EVBIT(EV_TCP);
+  f.evmask     = EVBIT(EV_REQ) | EVBIT(EV_REPLY) | EVBIT(EV_TIMER) | EVBIT(EV_FAULT) | EVBIT(EV_SETSERVERS) | EVBIT(EV_ADVANCE) | EVBIT(EV_IO) | EVBIT(EV_TCP) | EVBIT(EV_WRITECB);
   f.policy_mask = (1u << ARES_VERIF_RAND_ROTATE) | (1u << ARES_VERIF_RAND_PROBE);
   f.max_req    = 3;
   f.max_adv    = 1;
@@ -788,7 +820,69 @@ const Family *find_family(const std::string &name, const std::string &tier)
   else if (name == "retry-long") f = retry_long_family(tier);
   else if (name == "adversary") f = adversary_family(tier);
   else if (name == "cache") f = cache_family(tier);
-  else if (name == "search-fault") {
+  else if (name == "opts") {
+    // configuration sweep: every single toggle and every PAIR of toggles from a table of documented options over a
+    // two-server base configuration, each explored with a small alphabet (pairwise coverage of the option space; the
+    // other families fix a handful of hand-picked combinations and go deeper)
+    f      = sock_family(tier);
+    f.name = "opts";
+    f.cfgs.clear();
+    struct Tg {
+      const char *n;
+      void (*ap)(Cfg &);
+    };
+    static const Tg tg[] = {
+      { "stayopen", [](Cfg &c) { c.flags |= ARES_FLAG_STAYOPEN; } },
+      { "usevc", [](Cfg &c) { c.flags |= ARES_FLAG_USEVC; } },
+      { "igntc", [](Cfg &c) { c.flags |= ARES_FLAG_IGNTC; } },
+      { "nocheckresp", [](Cfg &c) { c.flags |= ARES_FLAG_NOCHECKRESP; } },
+      { "edns", [](Cfg &c) { c.flags |= ARES_FLAG_EDNS; } },
+      { "psz512", [](Cfg &c) { c.flags |= ARES_FLAG_EDNS; c.ednspsz = 512; } },
+      { "0x20", [](Cfg &c) { c.flags |= ARES_FLAG_DNS0x20; } },
+      { "primary", [](Cfg &c) { c.flags |= ARES_FLAG_PRIMARY; } },
+      { "umq1", [](Cfg &c) { c.udp_max_queries = 1; } },
+      { "maxto1500", [](Cfg &c) { c.maxtimeout_ms = 1500; } },
+      { "rotate", [](Cfg &c) { c.rotate = true; } },
+      { "probe", [](Cfg &c) { c.retry_chance = 1; c.retry_delay = 0; } },
+      { "nofailoveropt", [](Cfg &c) { c.set_failover = false; } },
+      { "cache", [](Cfg &c) { c.qcache_max_ttl = 3600; } },
+      { "localbind", [](Cfg &c) { c.local_bind = true; } },
+      { "pendingwrite", [](Cfg &c) { c.pending_write_cb = true; } },
+      { "legacyfds", [](Cfg &c) { c.sock_state_cb = false; } },
+      { "getsock", [](Cfg &c) { c.sock_state_cb = false; c.use_getsock = true; } },
+      { "tfo", [](Cfg &c) { c.tfo = true; } },
+      { "inprogress", [](Cfg &c) { c.connect_mode = 1; } },
+      { "server6", [](Cfg &c) { c.server6 = true; } },
+      { "fdreuse", [](Cfg &c) { c.reuse_fds = true; } },
+      { "tries1", [](Cfg &c) { c.tries = 1; } },
+      { "nosearch", [](Cfg &c) { c.flags |= ARES_FLAG_NOSEARCH; } },
+    };
+    const int ntg = (int)(sizeof(tg) / sizeof(tg[0]));
+    f.cfgs.push_back(cfg("base", 2, 2, 0));
+    for (int i = 0; i < ntg; i++) {
+      Cfg c = cfg(tg[i].n, 2, 2, 0);
+      tg[i].ap(c);
+      f.cfgs.push_back(c);
+    }
+    for (int i = 0; i < ntg; i++)
+      for (int j = i + 1; j < ntg; j++) {
+        std::string nm = std::string(tg[i].n) + "+" + tg[j].n;
+        Cfg         c  = cfg("", 2, 2, 0);
+        c.name         = nm;
+        tg[i].ap(c);
+        tg[j].ap(c);
+        f.cfgs.push_back(c);
+      }
+    f.req_menu   = { 0, 4, 2, 14, 12 }; // incl. a query whose callback cancels the channel and one whose callback starts a request
+    f.replies    = { RK_DATA, RK_SERVFAIL, RK_TC };
+    f.faults     = { FS_SEND_REFUSED, FS_RECV_RESET };
+    f.fault_skips.clear();
+    f.fault_skip_sites.clear();
+    f.setservers = { 1 };
+    f.max_req    = 2;
+    f.max_depth  = tier == "quick" ? 4 : 5;
+    f.max_dev    = tier == "quick" ? 0 : 1;
+  } else if (name == "search-fault") {
     // one socket() failure (EAGAIN) while a candidate's connection is being opened: the candidate list and the stopping
     // rule are unchanged by it (the attempt failed; it is not an answer)
     f      = search_family(tier);
